@@ -52,5 +52,8 @@ int main(int argc, char **argv) {
     if (prop == "c18") rc = drive("C18", opt, c18::body);
     if (prop == "c05") rc = drive("C05", opt, c05::body);
     if (opt.own_work) rm_rf(opt.work);
-    return rc;
+    // leave without exit handlers: after a failed case entities may still be open, and HDF5's own
+    // termination routine is not part of what is checked
+    fflush(nullptr);
+    _exit(rc);
 }
